@@ -10,6 +10,7 @@ type cgInfo struct {
 	callers    map[*ssa.Function]map[*ssa.Function]bool // callee -> set of static callers
 	usedAsValue map[*ssa.Function]bool                   // function value escapes (passed, stored, bound) other than as a direct callee
 	onceFns    map[*ssa.Function]bool                   // functions handed to (*sync.Once).Do
+	takers     map[*ssa.Function]map[*ssa.Function]bool // function -> functions in which it is turned into a value
 }
 
 var cgCache = map[*World]*cgInfo{}
@@ -67,6 +68,13 @@ func (w *World) callgraph() *cgInfo {
 						continue // the MakeClosure instruction itself; its uses are what matter
 					}
 					c.usedAsValue[f] = true
+					if c.takers == nil {
+						c.takers = map[*ssa.Function]map[*ssa.Function]bool{}
+					}
+					if c.takers[f] == nil {
+						c.takers[f] = map[*ssa.Function]bool{}
+					}
+					c.takers[f][fn] = true
 				}
 			}
 		}
@@ -92,11 +100,15 @@ func (w *World) onlyReachableFrom(fn *ssa.Function, roots map[*ssa.Function]bool
 		if f.Parent() != nil {
 			return ok(f.Parent())
 		}
-		if c.usedAsValue[f] {
-			return false
+		// a function turned into a value (method value, function reference) counts, like a closure, as part of the
+		// functions that create the value
+		for taker := range c.takers[f] {
+			if !ok(taker) {
+				return false
+			}
 		}
 		cs := c.callers[f]
-		if len(cs) == 0 {
+		if len(cs) == 0 && len(c.takers[f]) == 0 {
 			return false
 		}
 		for caller := range cs {
